@@ -4,10 +4,14 @@
             specification of five functions of the shared Date model ([add_days_ok], [date_diff_ok],
             [succ_ok], [pred_ok], [date_ord_ok]: Section hypotheses, explicit premises of the theorems);
             the time-of-day part (overflowing_add_signed, NaiveTime::signed_duration_since on non-leap
-            values) and the calendar-spec facts are proved here. *)
+            values) and the calendar-spec facts are proved here.
+    Part 3: the five specifications hold for Model/Date.v (from the shared calendar lemmas of
+            Proofs/Date.v / Proofs/C08*.v: add_days_spec, succ/pred_opt_spec, order_spec,
+            signed_duration_since_spec).  Part 4: the unconditional theorems. *)
 From Coq Require Import ZArith List Bool Lia ZifyBool.
 From V Require Import Base.Int Base.IO Base.IntLemmas Spec.Gregorian Model.TimeDelta Model.DateTime Model.C03 Proofs.C06.
 From V Require Model.Date Model.Time.
+From V Require Proofs.Date.
 Import ListNotations.
 Open Scope Z_scope.
 Ltac Zify.zify_post_hook ::= Z.to_euclidean_division_equations.
@@ -756,3 +760,309 @@ Lemma range_ends_reachable :
   inst NDT_MAX = NS_MAX /\ inst NDT_MIN = NS_MIN /\
   nvalid NDT_MAX /\ nvalid NDT_MIN /\ valid ns1.
 Proof. vm_compute. repeat split; congruence. Qed.
+
+(** * Part 3: the Date model satisfies the five specifications (from the shared calendar lemmas of
+    Proofs/Date.v and Proofs/C08*.v, stated over [repr y o d]) *)
+Lemma year_in_range_i32 y : year_in_range y = true -> in_i32 y = true.
+Proof. unfold year_in_range, MIN_YEAR, MAX_YEAR. solve_in. Qed.
+Lemma valid_yo_u32 y o : valid_yo y o = true -> in_u32 o = true.
+Proof. unfold valid_yo, days_in_year. destruct (is_leap y); solve_in. Qed.
+
+Lemma vdate_repr d : vdate d <-> C08Sweeps.repr (Date.d_year d) (Date.d_ordinal d) d.
+Proof.
+  split.
+  - intros [Hy [Ho E]]. split; [exact Hy|]. split; [exact Ho|].
+    rewrite C08Date.from_yo_opt_spec in E by (eauto using year_in_range_i32, valid_yo_u32).
+    rewrite Hy, Ho in E. unfold C08Date.date_if in E. cbn [andb] in E. injection E as E'. symmetry. exact E'.
+  - intros H. pose proof H as [Hy [Ho E]]. split; [exact Hy|]. split; [exact Ho|].
+    rewrite C08Date.from_yo_opt_spec by (eauto using year_in_range_i32, valid_yo_u32).
+    rewrite Hy, Ho. unfold C08Date.date_if. cbn [andb]. rewrite <- E. reflexivity.
+Qed.
+Lemma repr_vdate y o d : C08Sweeps.repr y o d -> vdate d /\ dn d = dn_of_yo y o.
+Proof.
+  intros H. pose proof (C08Date.repr_acc y o d H) as A.
+  destruct (md_of_ordinal (is_leap y) o). destruct A as [Ey [Eo _]].
+  split; [apply (proj2 (vdate_repr d)); rewrite Ey, Eo; exact H|]. unfold dn. rewrite Ey, Eo. reflexivity.
+Qed.
+Lemma date_of_dn_vdate n : dn_in_range n = true ->
+  vdate (C08AddDays.date_of_dn n) /\ dn (C08AddDays.date_of_dn n) = n.
+Proof.
+  intros Hn. pose proof (Proofs.Date.date_of_dn_repr n Hn) as H.
+  destruct (repr_vdate _ _ _ H) as [V D]. split; [exact V|]. rewrite D.
+  destruct (C08Days.yo_of_dn_valid n) as [_ E]. exact E.
+Qed.
+
+Lemma add_days_holds : add_days_ok.
+Proof.
+  intros d n Hd Hn. apply (proj1 (vdate_repr d)) in Hd.
+  rewrite (C08AddDays.add_days_spec _ _ _ _ Hd Hn). fold (dn d).
+  eexists. split; [reflexivity|].
+  destruct (dn_in_range (dn d + n)) eqn:E; cbn [C08Date.date_if].
+  - apply date_of_dn_vdate. exact E.
+  - reflexivity.
+Qed.
+Lemma date_diff_holds : date_diff_ok.
+Proof.
+  intros a b Ha Hb. apply (proj1 (vdate_repr a)) in Ha. apply (proj1 (vdate_repr b)) in Hb.
+  exact (Proofs.Date.signed_duration_since_spec _ _ _ _ _ _ Ha Hb).
+Qed.
+Lemma succ_holds : succ_ok.
+Proof.
+  intros d Hd. pose proof (vdate_range d Hd) as Rg. apply (proj1 (vdate_repr d)) in Hd.
+  rewrite (Proofs.Date.succ_opt_spec _ _ _ Hd). fold (dn d).
+  eexists. split; [reflexivity|].
+  destruct (dn_in_range (dn d + 1)) eqn:E; cbn [C08Date.date_if].
+  - apply date_of_dn_vdate. exact E.
+  - unfold dn_in_range in E. lia.
+Qed.
+Lemma pred_holds : pred_ok.
+Proof.
+  intros d Hd. pose proof (vdate_range d Hd) as Rg. apply (proj1 (vdate_repr d)) in Hd.
+  rewrite (Proofs.Date.pred_opt_spec _ _ _ Hd). fold (dn d).
+  eexists. split; [reflexivity|].
+  destruct (dn_in_range (dn d - 1)) eqn:E; cbn [C08Date.date_if].
+  - apply date_of_dn_vdate. exact E.
+  - unfold dn_in_range in E. lia.
+Qed.
+Lemma date_ord_holds : date_ord_ok.
+Proof.
+  intros a b Ha Hb. apply (proj1 (vdate_repr a)) in Ha. apply (proj1 (vdate_repr b)) in Hb.
+  exact (Proofs.Date.order_spec _ _ _ _ _ _ Ha Hb).
+Qed.
+
+(** the public-constructor reading of [vdate] *)
+Lemma vdate_constructed d :
+  vdate d <-> exists y o, year_in_range y = true /\ valid_yo y o = true /\ Date.from_yo_opt y o = Val (Some d).
+Proof.
+  split.
+  - intros [Hy [Ho E]]. eauto.
+  - intros [y [o [Hy [Ho E]]]].
+    rewrite C08Date.from_yo_opt_spec in E by (eauto using year_in_range_i32, valid_yo_u32).
+    rewrite Hy, Ho in E. unfold C08Date.date_if in E. cbn [andb] in E. injection E as E'.
+    apply (repr_vdate y o d). split; [exact Hy|]. split; [exact Ho|]. symmetry. exact E'.
+Qed.
+
+(** * Part 4: the unconditional theorems *)
+Lemma ndt_add_exact_u a d : nvalid a -> valid d ->
+  exists r, ndt_checked_add_signed a d = Val r /\ ndt_res (inst a + ns d) r.
+Proof. exact (ndt_add_exact add_days_holds a d). Qed.
+Lemma ndt_sub_exact_u a d : nvalid a -> valid d ->
+  exists r, ndt_checked_sub_signed a d = Val r /\ ndt_res (inst a - ns d) r.
+Proof. exact (ndt_sub_exact add_days_holds a d). Qed.
+Lemma ndt_diff_exact_u a b : nvalid a -> nvalid b ->
+  exists d, ndt_signed_duration_since a b = Val d /\ valid d /\ ns d = inst a - inst b.
+Proof. exact (ndt_diff_exact date_diff_holds a b). Qed.
+Lemma ndt_roundtrip_u a b : nvalid a -> nvalid b ->
+  exists d, ndt_signed_duration_since a b = Val d /\ ndt_checked_add_signed b d = Val (Some a).
+Proof. exact (ndt_roundtrip add_days_holds date_diff_holds a b). Qed.
+Lemma ndt_order_u a b : nvalid a -> nvalid b ->
+  exists d, ndt_signed_duration_since a b = Val d /\
+    td_cmp d (mk_td 0 0) = cmpZ (inst a) (inst b) /\ ndt_cmp a b = cmpZ (inst a) (inst b).
+Proof. exact (ndt_order date_diff_holds date_ord_holds a b). Qed.
+Lemma date_add_days_exact_u d n : vdate d -> in_u64 n = true ->
+  exists r, Date.checked_add_days d n = Val r /\ date_res d (dn d + n) r.
+Proof. exact (date_add_days_exact add_days_holds d n). Qed.
+Lemma date_sub_days_exact_u d n : vdate d -> in_u64 n = true ->
+  exists r, Date.checked_sub_days d n = Val r /\ date_res d (dn d - n) r.
+Proof. exact (date_sub_days_exact add_days_holds d n). Qed.
+Lemma date_add_signed_trunc_u d x : vdate d -> valid x ->
+  exists r, Date.checked_add_signed d x = Val r /\ date_res d (dn d + Z.quot (ns x) DAYNS) r.
+Proof. exact (date_add_signed_trunc add_days_holds d x). Qed.
+Lemma date_sub_signed_trunc_u d x : vdate d -> valid x ->
+  exists r, Date.checked_sub_signed d x = Val r /\ date_res d (dn d - Z.quot (ns x) DAYNS) r.
+Proof. exact (date_sub_signed_trunc add_days_holds d x). Qed.
+Lemma ndt_days_exact_u a n : nvalid a -> in_u64 n = true ->
+  (exists r, ndt_checked_add_days a n = Val r /\ ndt_res (inst a + n * DAYNS) r) /\
+  (exists r, ndt_checked_sub_days a n = Val r /\ ndt_res (inst a - n * DAYNS) r).
+Proof. exact (ndt_days_exact add_days_holds a n). Qed.
+Lemma iter_days_forward_u : iter_forward_statement days_next days_size_hint 1.
+Proof. exact (iter_days_forward date_diff_holds succ_holds). Qed.
+Lemma iter_weeks_forward_u : iter_forward_statement weeks_next weeks_size_hint 7.
+Proof. exact (iter_weeks_forward add_days_holds date_diff_holds). Qed.
+Lemma iter_days_backward_u : iter_backward_statement days_next_back 1.
+Proof. exact (iter_days_backward pred_holds). Qed.
+Lemma iter_weeks_backward_u : iter_backward_statement weeks_next_back 7.
+Proof. exact (iter_weeks_backward add_days_holds). Qed.
+
+(** operator forms: the exact value where the instant is representable, panic exactly elsewhere *)
+Definition in_ns_range (t : Z) : bool := (NS_MIN <=? t) && (t <=? NS_MAX).
+Lemma op_nadd_exact a d : nvalid a -> valid d ->
+  if in_ns_range (inst a + ns d)
+  then exists b, op_nadd_td a d = Val b /\ nvalid b /\ inst b = inst a + ns d
+  else op_nadd_td a d = Panic.
+Proof.
+  intros Ha Hd. destruct (ndt_add_exact_u a d Ha Hd) as [r [E R]]. unfold op_nadd_td, unwrap_r. rewrite E. cbn [bind].
+  unfold in_ns_range. destruct r as [b|]; cbn in R |- *.
+  - destruct R as [V I]. pose proof (nvalid_inst_range b V) as Rg. rewrite I in Rg.
+    replace ((NS_MIN <=? inst a + ns d) && (inst a + ns d <=? NS_MAX)) with true by lia. eauto.
+  - replace ((NS_MIN <=? inst a + ns d) && (inst a + ns d <=? NS_MAX)) with false by lia. reflexivity.
+Qed.
+Lemma op_nsub_exact a d : nvalid a -> valid d ->
+  if in_ns_range (inst a - ns d)
+  then exists b, op_nsub_td a d = Val b /\ nvalid b /\ inst b = inst a - ns d
+  else op_nsub_td a d = Panic.
+Proof.
+  intros Ha Hd. destruct (ndt_sub_exact_u a d Ha Hd) as [r [E R]]. unfold op_nsub_td, unwrap_r. rewrite E. cbn [bind].
+  unfold in_ns_range. destruct r as [b|]; cbn in R |- *.
+  - destruct R as [V I]. pose proof (nvalid_inst_range b V) as Rg. rewrite I in Rg.
+    replace ((NS_MIN <=? inst a - ns d) && (inst a - ns d <=? NS_MAX)) with true by lia. eauto.
+  - replace ((NS_MIN <=? inst a - ns d) && (inst a - ns d <=? NS_MAX)) with false by lia. reflexivity.
+Qed.
+
+(** zone-aware values: the instant moves exactly, the offset is kept, refusal does not depend on the offset *)
+Lemma zone_add_exact u off d : nvalid u -> valid d ->
+  exists r, dz_checked_add_signed (mk_dtz u off) d = Val r /\
+    match r with
+    | Some z => dz_off z = off /\ nvalid (dz_utc z) /\ inst (dz_utc z) = inst u + ns d
+    | None => ~ (NS_MIN <= inst u + ns d <= NS_MAX)
+    end.
+Proof.
+  intros Hu Hd. destruct (zone_add_sub u off d) as [E _]. rewrite E.
+  destruct (ndt_add_exact_u u d Hu Hd) as [r [E2 R]]. rewrite E2.
+  destruct r as [b|]; cbn in R |- *; eexists; (split; [reflexivity|]); cbn; [|exact R].
+  destruct R as [V I]. auto.
+Qed.
+Lemma zone_sub_exact u off d : nvalid u -> valid d ->
+  exists r, dz_checked_sub_signed (mk_dtz u off) d = Val r /\
+    match r with
+    | Some z => dz_off z = off /\ nvalid (dz_utc z) /\ inst (dz_utc z) = inst u - ns d
+    | None => ~ (NS_MIN <= inst u - ns d <= NS_MAX)
+    end.
+Proof.
+  intros Hu Hd. destruct (zone_add_sub u off d) as [_ E]. rewrite E.
+  destruct (ndt_sub_exact_u u d Hu Hd) as [r [E2 R]]. rewrite E2.
+  destruct r as [b|]; cbn in R |- *; eexists; (split; [reflexivity|]); cbn; [|exact R].
+  destruct R as [V I]. auto.
+Qed.
+Lemma zone_diff_exact u1 o1 u2 o2 : nvalid u1 -> nvalid u2 ->
+  exists d, dz_signed_duration_since (mk_dtz u1 o1) (mk_dtz u2 o2) = Val d /\ valid d /\ ns d = inst u1 - inst u2.
+Proof. intros H1 H2. rewrite zone_diff. exact (ndt_diff_exact_u u1 u2 H1 H2). Qed.
+
+(** * Part 5: Days on zone-aware values whose local reading is representable *)
+Lemma oao_spec t off : tvalid t -> -86400 < off < 86400 ->
+  exists t' k, Time.overflowing_add_offset t off = Val (t', k) /\ tvalid t' /\
+    Time.tfrac t' = Time.tfrac t /\ Time.tsecs t' + 86400 * k = Time.tsecs t + off /\ -1 <= k <= 1.
+Proof.
+  intros [Hs Hf] Ho. unfold Time.overflowing_add_offset, tvalid.
+  rewrite as_i32_id by solve_in. unfold add_i32, chk.
+  replace (in_i32 (Time.tsecs t + off)) with true by (symmetry; solve_in). cbn [bind].
+  rewrite div_euclid_pos, rem_euclid_pos by lia. unfold chk.
+  replace (in_i32 ((Time.tsecs t + off) / 86400)) with true by (symmetry; solve_in). cbn [bind].
+  do 2 eexists. split; [reflexivity|]. cbn [Time.tsecs Time.tfrac].
+  rewrite as_u32_id by solve_in. repeat split; lia.
+Qed.
+Lemma oso_spec t off : tvalid t -> -86400 < off < 86400 ->
+  exists t' k, Time.overflowing_sub_offset t off = Val (t', k) /\ tvalid t' /\
+    Time.tfrac t' = Time.tfrac t /\ Time.tsecs t' + 86400 * k = Time.tsecs t - off /\ -1 <= k <= 1.
+Proof.
+  intros [Hs Hf] Ho. unfold Time.overflowing_sub_offset, tvalid.
+  rewrite as_i32_id by solve_in. unfold sub_i32, chk.
+  replace (in_i32 (Time.tsecs t - off)) with true by (symmetry; solve_in). cbn [bind].
+  rewrite div_euclid_pos, rem_euclid_pos by lia. unfold chk.
+  replace (in_i32 ((Time.tsecs t - off) / 86400)) with true by (symmetry; solve_in). cbn [bind].
+  do 2 eexists. split; [reflexivity|]. cbn [Time.tsecs Time.tfrac].
+  rewrite as_u32_id by solve_in. repeat split; lia.
+Qed.
+
+(** moving a date by the carry of an offset: -1, 0 or +1 day *)
+Lemma shift_checked_spec d k : vdate d -> -1 <= k <= 1 ->
+  exists r, shift_date_checked d k = Val r /\ date_res d (dn d + k) r.
+Proof.
+  intros Hd Hk. pose proof (vdate_range d Hd) as Rg. unfold shift_date_checked.
+  destruct (k =? -1) eqn:E1.
+  - destruct (pred_holds d Hd) as [r [E R]]. exists r. split; [exact E|].
+    replace (dn d + k) with (dn d - 1) by lia. destruct r; cbn; [exact R|unfold dn_in_range; lia].
+  - destruct (k =? 1) eqn:E2.
+    + destruct (succ_holds d Hd) as [r [E R]]. exists r. split; [exact E|].
+      replace (dn d + k) with (dn d + 1) by lia. destruct r; cbn; [exact R|unfold dn_in_range; lia].
+    + exists (Some d). split; [reflexivity|]. cbn. split; [exact Hd|lia].
+Qed.
+Lemma shift_overflowing_spec d k : vdate d -> -1 <= k <= 1 -> dn_in_range (dn d + k) = true ->
+  exists d', shift_date_overflowing d k = Val d' /\ vdate d' /\ dn d' = dn d + k.
+Proof.
+  intros Hd Hk Hr. pose proof (vdate_range d Hd) as Rg. unfold shift_date_overflowing. unfold dn_in_range in Hr.
+  destruct (k =? -1) eqn:E1.
+  - destruct (pred_holds d Hd) as [r [E R]]. rewrite E. cbn [bind].
+    destruct r as [d'|]; [|lia]. exists d'. split; [reflexivity|]. destruct R as [R1 R2]. split; [exact R1|lia].
+  - destruct (k =? 1) eqn:E2.
+    + destruct (succ_holds d Hd) as [r [E R]]. rewrite E. cbn [bind].
+      destruct r as [d'|]; [|lia]. exists d'. split; [reflexivity|]. destruct R as [R1 R2]. split; [exact R1|lia].
+    + exists d. split; [reflexivity|]. split; [exact Hd|lia].
+Qed.
+
+(** naive date-time +- fixed offset *)
+Lemma ndt_sub_offset_spec l off : nvalid l -> -86400 < off < 86400 ->
+  exists r, ndt_checked_sub_offset l off = Val r /\ ndt_res (inst l - off * G) r.
+Proof.
+  intros [Hd Ht] Ho. unfold ndt_checked_sub_offset.
+  destruct (oso_spec _ off Ht Ho) as [t' [k [E [Vt [Ef [Es Hk]]]]]]. rewrite E. cbn [bind].
+  destruct (shift_checked_spec _ k Hd Hk) as [r [E2 R]]. unfold obind. rewrite E2. cbn [bind].
+  pose proof (vdate_range _ Hd) as Rg. destruct Ht as [Hs Hf]. pose proof Vt as [Vs Vf].
+  rewrite inst_split. unfold tns.
+  destruct r as [d'|]; cbn in R |- *; eexists; (split; [reflexivity|]); cbn.
+  - destruct R as [R1 R2]. split; [split; assumption|]. rewrite inst_split. unfold tns. cbn [nd_date nd_time].
+    rewrite R2, Ef. unfold DAYNS, G in *. lia.
+  - unfold dn_in_range, NS_MIN, NS_MAX, DN_MIN, DN_MAX, EPOCH_DN, DAYNS, G in *. lia.
+Qed.
+Lemma naive_local_spec u off : nvalid u -> -86400 < off < 86400 -> NS_MIN <= inst u + off * G <= NS_MAX ->
+  exists l, ndt_overflowing_add_offset u off = Val l /\ nvalid l /\ inst l = inst u + off * G.
+Proof.
+  intros [Hd Ht] Ho Hr. unfold ndt_overflowing_add_offset.
+  destruct (oao_spec _ off Ht Ho) as [t' [k [E [Vt [Ef [Es Hk]]]]]]. rewrite E. cbn [bind].
+  pose proof (vdate_range _ Hd) as Rg. destruct Ht as [Hs Hf]. pose proof Vt as [Vs Vf].
+  rewrite inst_split in Hr. unfold tns in Hr.
+  assert (Hin : dn_in_range (dn (nd_date u) + k) = true).
+  { unfold dn_in_range, NS_MIN, NS_MAX, DN_MIN, DN_MAX, EPOCH_DN, DAYNS, G in *. lia. }
+  destruct (shift_overflowing_spec _ k Hd Hk Hin) as [d' [E2 [V2 D2]]]. rewrite E2. cbn [bind].
+  eexists. split; [reflexivity|]. split; [split; assumption|].
+  rewrite !inst_split. unfold tns. cbn [nd_date nd_time]. rewrite D2, Ef. unfold DAYNS, G in *. lia.
+Qed.
+
+Lemma ndt_le_max x : nvalid x -> ndt_le x NDT_MAX = true /\ ndt_le NDT_MIN x = true.
+Proof.
+  intros Hx. destruct range_ends_reachable as (_ & _ & _ & _ & Imax & Imin & Vmax & Vmin & _).
+  pose proof (nvalid_inst_range x Hx) as Rg. unfold ndt_le.
+  destruct (ndt_order_u x NDT_MAX Hx Vmax) as [d1 [_ [_ C1]]].
+  destruct (ndt_order_u NDT_MIN x Vmin Hx) as [d2 [_ [_ C2]]].
+  rewrite C1, C2, Imax, Imin. unfold cmpZ.
+  destruct (inst x ?= NS_MAX) eqn:E1; destruct (NS_MIN ?= inst x) eqn:E2;
+    rewrite ?Z.compare_eq_iff, ?Z.compare_lt_iff, ?Z.compare_gt_iff in *; split; try reflexivity; lia.
+Qed.
+
+Definition zdays_res (u : ndt) (off target : Z) (r : option dtz) : Prop :=
+  match r with
+  | Some z => dz_off z = off /\ nvalid (dz_utc z) /\ inst (dz_utc z) = target
+  | None => ~ (NS_MIN <= target <= NS_MAX /\ NS_MIN <= target + off * G <= NS_MAX)
+  end.
+
+Lemma zone_days_exact_partial u off n : nvalid u -> -86400 < off < 86400 -> in_u64 n = true ->
+  NS_MIN <= inst u + off * G <= NS_MAX ->
+  (exists r, dz_checked_add_days (mk_dtz u off) n = Val r /\ zdays_res u off (inst u + n * DAYNS) r) /\
+  (exists r, dz_checked_sub_days (mk_dtz u off) n = Val r /\ zdays_res u off (inst u - n * DAYNS) r).
+Proof.
+  intros Hu Ho Hn Hl. pose proof (nvalid_inst_range u Hu) as Ru.
+  destruct (naive_local_spec u off Hu Ho Hl) as [l [El [Vl Il]]].
+  destruct (ndt_days_exact_u l n Vl Hn) as [[ra [Ea Ra]] [rs [Es Rs]]].
+  split.
+  - unfold dz_checked_add_days. destruct (n =? 0) eqn:E0.
+    + exists (Some (mk_dtz u off)). split; [reflexivity|]. cbn. repeat split; try apply Hu. lia.
+    + unfold overflowing_naive_local. cbn [dz_utc dz_off]. rewrite El. cbn [bind]. unfold obind. rewrite Ea. cbn [bind].
+      destruct ra as [l'|]; cbn in Ra.
+      * destruct Ra as [Vl' Il']. unfold from_local_datetime.
+        destruct (ndt_sub_offset_spec l' off Vl' Ho) as [r2 [E2 R2]]. rewrite E2. cbn [bind].
+        destruct r2 as [x|]; cbn in R2 |- *.
+        -- destruct R2 as [Vx Ix]. destruct (ndt_le_max x Vx) as [Le _]. rewrite Le.
+           eexists. split; [reflexivity|]. cbn. split; [reflexivity|]. split; [exact Vx|]. lia.
+        -- eexists. split; [reflexivity|]. cbn. lia.
+      * eexists. split; [reflexivity|]. cbn. lia.
+  - unfold dz_checked_sub_days.
+    unfold overflowing_naive_local. cbn [dz_utc dz_off]. rewrite El. cbn [bind]. unfold obind. rewrite Es. cbn [bind].
+    destruct rs as [l'|]; cbn in Rs.
+    + destruct Rs as [Vl' Il']. unfold from_local_datetime.
+      destruct (ndt_sub_offset_spec l' off Vl' Ho) as [r2 [E2 R2]]. rewrite E2. cbn [bind].
+      destruct r2 as [x|]; cbn in R2 |- *.
+      * destruct R2 as [Vx Ix]. destruct (ndt_le_max x Vx) as [_ Le]. rewrite Le.
+        eexists. split; [reflexivity|]. cbn. split; [reflexivity|]. split; [exact Vx|]. lia.
+      * eexists. split; [reflexivity|]. cbn. lia.
+    + eexists. split; [reflexivity|]. cbn. lia.
+Qed.
